@@ -3,11 +3,9 @@ use crate::model::*;
 use customasm::util::BigInt;
 use customasm::*;
 
-static mut CALLS: usize = 0;
-static mut LAST_IS_LAST: bool = false;
-static mut LAST_RESOLVED: bool = false;
-static mut FIRST_OK: bool = true;
-static mut INDEX_OK: bool = true;
+// pass log (struct with a magic word: see model.rs)
+struct PassLog { magic: u64, calls: usize, last_is_last: bool, last_resolved: bool, first_ok: bool, index_ok: bool }
+static mut PL: PassLog = PassLog { magic: 0x504c_5eed_c0de_0004, calls: 0, last_is_last: false, last_resolved: false, first_ok: true, index_ok: true };
 
 /// Contract stub for resolver::resolve_once: any of Resolved / Unresolved / Err per call;
 /// Err records an error (phase contract, checked for the reachable steps in C03-c).
@@ -17,14 +15,14 @@ pub fn resolve_once_nd(
     iteration_index: usize, is_first_iteration: bool, is_last_iteration: bool,
 ) -> Result<asm::ResolutionState, ()> {
     unsafe {
-        CALLS += 1;
-        if (CALLS == 1) != is_first_iteration { FIRST_OK = false; }
-        if iteration_index != CALLS { INDEX_OK = false; }
-        LAST_IS_LAST = is_last_iteration;
+        PL.calls += 1;
+        if (PL.calls == 1) != is_first_iteration { PL.first_ok = false; }
+        if iteration_index != PL.calls { PL.index_ok = false; }
+        PL.last_is_last = is_last_iteration;
         let r: u8 = kani::any();
-        if r == 0 { LAST_RESOLVED = false; report.error("nd"); return Err(()); }
-        if r == 1 { LAST_RESOLVED = true; return Ok(asm::ResolutionState::Resolved); }
-        LAST_RESOLVED = false;
+        if r == 0 { PL.last_resolved = false; report.error("nd"); return Err(()); }
+        if r == 1 { PL.last_resolved = true; return Ok(asm::ResolutionState::Resolved); }
+        PL.last_resolved = false;
         Ok(asm::ResolutionState::Unresolved)
     }
 }
@@ -41,22 +39,22 @@ fn iter_protocol(maxb: usize) {
     kani::assume(max >= 1 && max <= maxb);
     let r = asm::resolver::resolve_iteratively(&mut report, &opts, &mut fs, &ast, &decls, &mut defs, max);
     unsafe {
-        assert!(FIRST_OK, "is_first_iteration set on a pass other than the first");
-        assert!(INDEX_OK, "iteration index does not count passes");
-        assert!(CALLS <= max + 1, "more passes than budget + 1 confirmation pass");
+        assert!(PL.first_ok, "is_first_iteration set on a pass other than the first");
+        assert!(PL.index_ok, "iteration index does not count passes");
+        assert!(PL.calls <= max + 1, "more passes than budget + 1 confirmation pass");
         match r {
             Ok(n) => {
-                assert!(LAST_IS_LAST, "success although the last pass was allowed to guess");
-                assert!(LAST_RESOLVED, "success although the last pass was not Resolved");
+                assert!(PL.last_is_last, "success although the last pass was allowed to guess");
+                assert!(PL.last_resolved, "success although the last pass was not Resolved");
                 assert!(n >= 1 && n <= max, "reported pass count outside 1..=budget");
-                assert!(CALLS == n || CALLS == n + 1);
+                assert!(PL.calls == n || PL.calls == n + 1);
                 assert!(errs(&report) == 0);
-                kani::cover!(n == max && CALLS == n, "converged exactly on the budget's last pass");
-                kani::cover!(n < max && CALLS == n + 1, "converged early and confirmed by a no-guess pass");
+                kani::cover!(n == max && PL.calls == n, "converged exactly on the budget's last pass");
+                kani::cover!(n < max && PL.calls == n + 1, "converged early and confirmed by a no-guess pass");
             }
             Err(()) => {
-                kani::cover!(CALLS < max && LAST_IS_LAST && errs(&report) == 0, "early convergence refuted by the no-guess confirmation pass");
-                kani::cover!(CALLS == max && errs(&report) == 0, "budget exhausted without convergence");
+                kani::cover!(PL.calls < max && PL.last_is_last && errs(&report) == 0, "early convergence refuted by the no-guess confirmation pass");
+                kani::cover!(PL.calls == max && errs(&report) == 0, "budget exhausted without convergence");
                 kani::cover!(errs(&report) > 0, "a pass failed with an error");
             }
         }
